@@ -324,6 +324,23 @@ func c09Dumb(sc *C09Sc, env *Env) *Violation {
 		db.IOSeed = ^sc.IOSeed
 		cpu.Memory, cpu.IO = decoy, db.IO()
 		cpu.Step()
+		if sc.IOSeed>>3&1 == 1 {
+			// ... and it then ran a program to its HALT (the halted indication is still set: only Run clears it)
+			hm := make(z80.DumbMemory, 4)
+			hm[1] = 0x76
+			cpu.Memory = hm
+			cpu.PC = 0
+			if err := cpu.Run(context.Background()); err != nil || !cpu.HALT {
+				return viol("harness", "NOP;HALT did not halt: %v", err)
+			}
+			env.Fire("cpu-object-halted-before")
+		}
+		if sc.IOSeed>>4&1 == 1 {
+			// ... and what the host uses from here on is a by-value copy of that CPU
+			c2 := *cpu
+			cpu = &c2
+			env.Fire("cpu-object-is-a-copy-of-a-used-one")
+		}
 		cpu.Memory, cpu.IO, cpu.States = dm, bus.IO(), regs.States()
 		env.Fire("cpu-object-used-before-on-another-memory")
 	}
